@@ -306,6 +306,7 @@ func allowedFlow(p *Prog, s2n *ssa.Function) *sliceFlow {
 	fl := &sliceFlow{p: p, vals: map[ssa.Value]bool{}, fns: map[*ssa.Function]bool{}, writes: map[*ssa.Function]bool{}, readProblems: map[*ssa.Function][]string{}}
 	flowCache[p] = fl
 	var work []ssa.Value
+	trackedField := map[string]bool{}
 	comparators := map[*ssa.Function]bool{}
 	add := func(v ssa.Value) {
 		if v != nil && !fl.vals[v] {
@@ -432,6 +433,38 @@ func allowedFlow(p *Prog, s2n *ssa.Function) *sliceFlow {
 					}
 					break
 				}
+				// wrapped into a field of an in-module struct (type allowList struct{ licenses []*node }): every
+				// read of that field, anywhere, is then a use of the allowed nodes (checked below: nothing
+				// else is ever stored into the field)
+				if fa, ok := t.Addr.(*ssa.FieldAddr); ok && t.Val == v {
+					if st, okS := fa.X.Type().Underlying().(*types.Pointer).Elem().Underlying().(*types.Struct); okS {
+						if n, _ := namedStruct(fa.X.Type().Underlying().(*types.Pointer).Elem()); n != nil && n.Obj().Pkg() != nil && p.ExpPkg.Types == n.Obj().Pkg() {
+							key := n.String() + "." + st.Field(fa.Field).Name()
+							if !trackedField[key] {
+								trackedField[key] = true
+								for _, g := range p.RList {
+									for _, gb := range g.Blocks {
+										for _, gin := range gb.Instrs {
+											switch x := gin.(type) {
+											case *ssa.UnOp:
+												if fa2, ok := x.X.(*ssa.FieldAddr); ok && x.Op == token.MUL {
+													if n2, st2 := namedStruct(fa2.X.Type().Underlying().(*types.Pointer).Elem()); n2 != nil && n2.String()+"."+st2.Field(fa2.Field).Name() == key {
+														add(x)
+													}
+												}
+											case *ssa.Field:
+												if n2, st2 := namedStruct(x.X.Type()); n2 != nil && n2.String()+"."+st2.Field(x.Field).Name() == key {
+													add(x)
+												}
+											}
+										}
+									}
+								}
+							}
+							break
+						}
+					}
+				}
 				fl.escapes = append(fl.escapes, fmt.Sprintf("%s: the allowed nodes are stored into %s", p.pos(t.Pos()), describe(t.Addr)))
 			case *ssa.Call:
 				if bi, ok := t.Call.Value.(*ssa.Builtin); ok {
@@ -499,6 +532,33 @@ func allowedFlow(p *Prog, s2n *ssa.Function) *sliceFlow {
 				add(t)
 			default:
 				fl.escapes = append(fl.escapes, fmt.Sprintf("%s: the allowed nodes are used by %T", p.pos(ref.Pos()), ref))
+			}
+		}
+	}
+	// a field that carries the allowed nodes must carry nothing else: every store into it stores them (or nil)
+	if len(trackedField) > 0 {
+		for _, g := range p.RList {
+			for _, gb := range g.Blocks {
+				for _, gin := range gb.Instrs {
+					st, ok := gin.(*ssa.Store)
+					if !ok {
+						continue
+					}
+					fa, ok := st.Addr.(*ssa.FieldAddr)
+					if !ok {
+						continue
+					}
+					n2, st2 := namedStruct(fa.X.Type().Underlying().(*types.Pointer).Elem())
+					if n2 == nil || !trackedField[n2.String()+"."+st2.Field(fa.Field).Name()] {
+						continue
+					}
+					if c, isC := st.Val.(*ssa.Const); isC && c.IsNil() {
+						continue
+					}
+					if !fl.vals[st.Val] {
+						fl.escapes = append(fl.escapes, fmt.Sprintf("%s: the field that carries the allowed nodes is also assigned %s", p.pos(st.Pos()), describe(st.Val)))
+					}
+				}
 			}
 		}
 	}
